@@ -47,7 +47,7 @@ def reinterpret_expr(expr, symbols_from, symbols_to):
         print(reinterpret_expr(z,[y],[sin(y)]))
     """
 
-    f = Function('f', symbols_from, [expr])
+    f = Function('f', symbols_from, [expr], {"allow_free": True}) # parameters may remain: handled by OP_PARAMETER below
 
     # Work vector
     work = [None for i in range(f.sz_w())]
